@@ -16,6 +16,9 @@ def gen(tier, seed):
     yield {'conv': 'cf1d', 'ny': 4, 'nx': 2, 'leading_transposed': True, 'ydim': 'y', 'xdim': 'x', 'as_coords': False}
     yield {'conv': 'ugrid', 'ny': 2, 'nx': 3, 'tables': ['edge_node'], 'edge_transposed': True}
     yield {'conv': 'ugrid', 'ny': 2, 'nx': 2, 'tables': ['edge_node', 'edge_face'], 'transposed': True}
+    # tables that mention edges in a dataset without an edge dimension (no attribute, no edge table): still no edge grid
+    yield {'conv': 'ugrid', 'ny': 2, 'nx': 3, 'split': [[0, 0]], 'tables': ['face_edge'], 'edge_dimension': False}
+    yield {'conv': 'ugrid', 'ny': 2, 'nx': 2, 'tables': ['face_edge', 'face_face'], 'edge_dimension': False, 'start_index': 1}
 
 
 def native_form(conv, kind, comps):
